@@ -28,6 +28,7 @@ type funcInfo struct {
 }
 
 type Engine struct {
+	callProbes bool // thorough tier: a vacuity probe after every contracted call (did assuming its postconditions kill the path?)
 	repo      string
 	verif     string
 	outBase   string
@@ -1022,6 +1023,15 @@ func (e *Engine) verifyFunc(key string) (c *Ctx, err error) {
 		}
 		if !c.atHit[label] {
 			c.bindingErrors = append(c.bindingErrors, fmt.Sprintf("at-clause label %q matches no program point of %s", label, key))
+		}
+	}
+	for _, so := range k.SpawnOnly {
+		if !c.spawned[so] {
+			prefix := ""
+			if len(k.SpawnOnlyTags) > 0 {
+				prefix = "[" + strings.Join(k.SpawnOnlyTags, ",") + "] "
+			}
+			c.bindingErrors = append(c.bindingErrors, prefix+fmt.Sprintf("spawnonly %s: %s is never started with `go` in %s", so, so, key))
 		}
 	}
 	c.frameCheck(fi.decl.Body.Rbrace)
